@@ -130,10 +130,11 @@ class Engine:
     def solve(self, constraints, want_model=False, timeout_ms=None, is_assertion=False):
         """One fresh solver per query.  Returns ('sat', model) / ('unsat', None).
         Raises Inconclusive on unknown."""
+        # CPU seconds of this worker process, not wall-clock: a busy machine must not turn a decided case into an inconclusive one
         if self.t_start is None:
-            self.t_start = time.time()
-        elif time.time() - self.t_start > self.case_budget_s:
-            raise Inconclusive("time budget of this case (%d s) exhausted" % self.case_budget_s)
+            self.t_start = time.process_time()
+        elif time.process_time() - self.t_start > self.case_budget_s:
+            raise Inconclusive("time budget of this case (%d CPU s) exhausted" % self.case_budget_s)
         s = z3.SolverFor(self.logic)
         s.set("timeout", int(timeout_ms or self.timeout_ms))
         for c in constraints:
